@@ -29,18 +29,35 @@ Definition cache_same (obs model : cache) : bool :=
 
 (* what the implementation did at one step *)
 Definition observation := (response * option store * cache)%type.
-Definition case := (config * store * Z * list (ievent * observation))%type.
+(* a step of a case: an event of the interleaved model, or the harness replacing port p by a new port under the same id
+   (all samples of p removed through history.remove_samples([port]), then the registry holds the kinds of cfg') *)
+Inductive hstep := HEv (e : ievent) | HRetype (p : Z) (cfg' : config).
+Definition case := (config * store * Z * list (hstep * observation))%type.
+
+Definition forget_port (s : istate) (p : Z) : istate :=
+  {| i_st := hist_remove_samples (i_st s) p None None; i_gens := gen_bump (gen_bump (i_gens s) p) p; i_fly := i_fly s |}.
 
 Definition store_agrees (dump : option store) (st : store) : bool :=
   match dump with None => true | Some d => list_eqb sample_eqb d st end.
 
-Fixpoint first_bad_model (cfg : config) (st : istate) (steps : list (ievent * observation)) (i : Z) : option Z :=
+Fixpoint first_bad_model (cfg : config) (st : istate) (steps : list (hstep * observation)) (i : Z) : option Z :=
   match steps with
   | [] => None
-  | (e, (resp, dump, c)) :: rest =>
-      let '(st', out) := istep cfg st e in
+  | (h, (resp, dump, c)) :: rest =>
+      let '(cfg', st', out) := match h with
+                               | HEv e => let '(st', out) := istep cfg st e in (cfg, st', out)
+                               | HRetype p cfg' => (cfg', forget_port st p, RNone)
+                               end in
       if response_eqb out resp && store_agrees dump (st_store (i_st st')) && cache_same c (st_cache (i_st st'))
-      then first_bad_model cfg st' rest (i + 1) else Some i
+      then first_bad_model cfg' st' rest (i + 1) else Some i
+  end.
+
+(* the premise of the interleaving theorem, epoch by epoch *)
+Fixpoint sched_bad (cfg : config) (st : istate) (steps : list (hstep * observation)) : bool :=
+  match steps with
+  | [] => false
+  | (HEv e, _) :: rest => negb (event_okb st e) || sched_bad cfg (fst (istep cfg st e)) rest
+  | (HRetype p cfg', _) :: rest => (match i_fly st with [] => false | _ => true end) || sched_bad cfg' (forget_port st p) rest
   end.
 
 (* tie-tolerant comparison of a slice answer: same length, ascending timestamps, and under every timestamp strictly
@@ -85,17 +102,24 @@ Definition spec_event (strict : bool) (cfg : config) (s : wstate) (e : ievent) (
   | _ => ispec_step cfg s e resp
   end.
 
-Fixpoint first_bad_spec (strict : bool) (cfg : config) (s : wstate) (steps : list (ievent * observation)) (i : Z)
+Fixpoint first_bad_spec (strict : bool) (cfg : config) (s : wstate) (steps : list (hstep * observation)) (i : Z)
   : option Z :=
   match steps with
   | [] => None
-  | (e, (resp, dump, _)) :: rest =>
-      let '(s', resp_ok) := spec_event strict cfg s e resp in
+  | (h, (resp, dump, _)) :: rest =>
+      let '(cfg', s', resp_ok) :=
+        match h with
+        | HEv e => let '(s', ok) := spec_event strict cfg s e resp in (cfg, s', ok)
+        | HRetype p cfg' =>
+            (* the old port and its history are gone; from now on answers are typed like the port registered now *)
+            (cfg', {| ws_store := filter (fun x => negb (s_oid x =? p)) (ws_store s); ws_now := ws_now s; ws_open := [] |},
+             response_eqb RNone resp)
+        end in
       let store_ok := match dump with
                       | None => true
                       | Some d => if strict then list_eqb sample_eqb d (ws_store s') else store_same_multiset d (ws_store s')
                       end in
-      if resp_ok && store_ok then first_bad_spec strict cfg s' rest (i + 1) else Some i
+      if resp_ok && store_ok then first_bad_spec strict cfg' s' rest (i + 1) else Some i
   end.
 
 Fixpoint collect (f : case -> option Z) (cases : list case) (i : Z) : list Z :=
@@ -113,8 +137,8 @@ Definition bad_model (cases : list case) : list Z :=
 (* schedules outside the premise of the interleaving theorem *)
 Definition bad_sched (cases : list case) : list Z :=
   collect (fun '(cfg, st0, now0, steps) =>
-             if sched_okb cfg (istate_of {| st_store := st0; st_cache := []; st_now := now0 |}) (map fst steps)
-             then None else Some 0) cases 0.
+             if sched_bad cfg (istate_of {| st_store := st0; st_cache := []; st_now := now0 |}) steps
+             then Some 0 else None) cases 0.
 Definition bad_spec (cases : list case) : list Z :=
   collect (fun '(cfg, st0, now0, steps) => first_bad_spec true cfg {| ws_store := st0; ws_now := now0; ws_open := [] |} steps 0) cases 0.
 (* for drivers whose order among equal timestamps is unspecified (Redis sets, MongoDB) *)
